@@ -370,6 +370,16 @@ for op in %(ops)r:
         else:
             held[op[1]] = held[op[1]] * op[2]
         setattr(m, op[1], held[op[1]])                   # re-assign it
+    elif op[0] == "set_bad":
+        old = np.array(getattr(m, op[1]), dtype=float, copy=True)
+        try:
+            setattr(m, op[1], P(op[2])); print("the inadmissible value", op[1], "=", op[2], "was ACCEPTED"); sys.exit(1)
+        except SystemExit:
+            raise
+        except Exception as ex:
+            now = np.asarray(getattr(m, op[1]), dtype=float)
+            if now.shape != old.shape or not np.array_equal(now, old):
+                print("the assignment", op[1], "=", op[2], "was refused (", type(ex).__name__, ") but the parameter now reads", now, "instead of", old); sys.exit(1)
     elif op[0] == "notify":
         m.Need_Update()
     if op[0].startswith("read"):
@@ -507,6 +517,18 @@ def build_cases(ctx, lw):
                 K = np.array([[0, -ax[2], ax[1]], [ax[2], 0, -ax[0]], [-ax[1], ax[0], 0]])
                 Rm = np.eye(3) + math.sin(ang) * K + (1 - math.cos(ang)) * (K @ K)
                 extra.append((cname, gen_params(rng, cname), [[float(x) for x in Rm[:, 0]], [float(x) for x in Rm[:, 1]]], "near-id"))
+        if cname != "Isotropic":
+            # one material axis EXACTLY a global axis, the other one tilted about it (35 deg, or exactly a global axis), and permutations
+            E3_ = np.eye(3)
+            for which in (0, 1) if quick else (0, 1, 0, 1):
+                g = rng.choice([0, 1, 2])
+                th = rng.choice([math.radians(35.0), math.pi / 2, math.radians(rng.uniform(5, 175))])
+                u_, w_ = E3_[(g + 1) % 3], E3_[(g + 2) % 3]
+                tilted = math.cos(th) * u_ + math.sin(th) * w_
+                if th == math.pi / 2:
+                    tilted = w_.copy()
+                pair = [E3_[g].tolist(), [float(x) for x in tilted]]
+                extra.append((cname, gen_params(rng, cname), pair if which == 0 else pair[::-1], "one-axis-global"))
         for sE in (2.0 ** 40, 2.0 ** -40):
             p_ = gen_params(rng, cname)
             for k in MODULI[cname]:
@@ -647,6 +669,21 @@ def build_cases(ctx, lw):
             else:
                 ops.append(["notify"])
                 mops.append(("notify",))
+        # a refused assignment (inadmissible value, caught by the caller), then a valid change, then reads
+        badname = "v" if cname == "Isotropic" else rng.choice(["vt", "Et"])
+        badval = 0.6 if badname == "v" else (1.5 if badname == "vt" else -500.0)
+        if badname == arrname or (rep % 2 == 0 and badname in ("v", "vt", "Et") and fshape):
+            pass
+        if fshape and rep % 2 == 0 and not isinstance(cur[badname], list):
+            badfield = None
+        ops.append(["set_bad", badname, badval])
+        mops.append(("bad",))
+        if arrname in cur:
+            cur = dict(cur)
+            cur[arrname] = (np.asarray(cur[arrname]) * 1.25).tolist()
+            states.append(json.loads(json.dumps(cur)))
+            ops.append(["mutate_set", arrname, 1.25])
+            mops.append(("set", True, len(states) - 1))
         last = [rng.choice(getters), "readC", "readS"]
         ops += [[x] for x in last]
         mops += [("read", x) for x in last]
@@ -726,7 +763,7 @@ def correspondence(ctx, lw, pm):
     # ---------------- laws
     for i, (c, m, r) in enumerate(zip(req["law"], meta["law"], impl["law"])):
         cname, cfg = c["cls"], m["cfg"]
-        count("law:%s:%s:%s:%s" % (T_laws.CLASSES[cname], cfg, m["field"], "tilted-axes" if m["akind"] == "tilted" else m["akind"] if m["akind"] in ("near-id", "scaled-moduli") else "axes" if c["axes"] else "noaxes"))
+        count("law:%s:%s:%s:%s" % (T_laws.CLASSES[cname], cfg, m["field"], "tilted-axes" if m["akind"] == "tilted" else m["akind"] if m["akind"] in ("near-id", "scaled-moduli", "one-axis-global") else "axes" if c["axes"] else "noaxes"))
         if "raises" in r:
             mism.append(("law#%d %s[%s]" % (i, cname, cfg), "implementation raised " + r["raises"]))
             continue
@@ -938,6 +975,8 @@ def correspondence(ctx, lw, pm):
     for k, m in enumerate(meta["lazy"]):
         ops = []
         for o in m["mops"]:
+            if o[0] == "bad":
+                continue          # a refused assignment is not a state change of the model
             ops.append("SetParam nat %s %d" % ("true" if o[1] else "false", o[2]) if o[0] == "set" else "Read nat" if o[0] == "read" else "NotifyOnly nat")
         lines.append("Eval vm_compute in (run_reads 0%%nat [%s])." % "; ".join(ops))
     body = "From Coq Require Import List.\nFrom EFModel Require Import C11_Lazy.\nImport ListNotations.\n" + "\n".join(lines) + "\n"
@@ -958,6 +997,15 @@ def correspondence(ctx, lw, pm):
             if "raises" in r:
                 mism.append(("lazy#%d" % k, r["raises"]))
                 continue
+            for rf in r.get("refused", []):
+                if not rf["refused"] or not rf.get("reads_back_old", True):
+                    badop = [o for o in req["lazy"][k]["ops"] if o[0] == "set_bad"][0]
+                    upto = req["lazy"][k]["ops"][:req["lazy"][k]["ops"].index(badop) + 1]
+                    viol.append(("refused-assignment-kept:%s" % m["cls"],
+                                 "%s: the inadmissible assignment %s = %r %s" % (m["cls"], badop[1], badop[2],
+                                     "was accepted" if not rf["refused"] else "raised, but the parameter then reads back %s instead of its old value" % str(rf.get("reads_back"))[:60]),
+                                 {"replay_py": REPLAY_LAZY % dict(cls=m["cls"], dim=m["dim"], init=req["lazy"][k]["init"], ops=upto),
+                                  "ops": upto, "init": req["lazy"][k]["init"], "cls": m["cls"], "dim": m["dim"]}))
             kinds = [o[1] for o in m["mops"] if o[0] == "read"]
             if len(ids) != len(r["reads"]) or len(ids) != len(kinds):
                 mism.append(("lazy#%d" % k, "number of reads"))
